@@ -50,6 +50,10 @@ CLAIMED = {
     "C26": ("HANDOUT fixed point (mutable access only after detach), EFFECT (detach/share/clone) and NOFLOW (copy operations never read the source payload) on the class-template patterns of the pointer wrappers",
             "Static decision of the pointer-wrapper clauses of C26 (DESIGN section 3): every CloneOnWritePtr member that exposes mutable access or releases ownership detaches first; copies share/increment, detach clones exactly when shared; "
             "ClonePtr copies clone; ReferencePtr/ResetOnCopy/ReinitOnCopy copy operations cannot carry the source's value. All of Array_/ArrayView_ (element order, exactly-once construction/destruction, growth) is value/heap semantics and NOT decided."),
+    "C23": ("PAIRCALL path rule (update slot written => marked realized with the same index on every path, in the function or in every caller), guard-index agreement, realize-hook MUSTCALL, getter/writer slot agreement",
+            "Static decision of the bookkeeping clause on which Extreme, Delay, Differentiate (and the other auto-update users: ExponentialSpringForce, CablePath, CableSpan, ContactTracker) depend (DESIGN section 3, C23): "
+            "a value written into an auto-update variable's update slot is marked realized on all paths with the same index, the 'already realized' test uses that index, the Acceleration-stage hook reaches the update and the getter reads a slot that was written. "
+            "The values of the measures (formulas, integrals, extremes, delays) are numerical and NOT decided."),
 }
 NA = {
  "C01": "numerical identity between O(n) recursions; no clause is visible in the shape of the code",
